@@ -410,29 +410,34 @@ func childMain(specJSON string) {
 				}
 			}()
 		case "settle":
-			// wait until background work has gone quiet, then list the directory
+			// wait until background work has gone quiet, then list the directory; the listing only
+			// counts if nothing happened for a while before AND after it was taken
 			bg.Wait()
-			for i := 0; i < 400; i++ {
+			idleFor := func() time.Duration {
 				mu.Lock()
-				idle := time.Since(lastEvent)
-				mu.Unlock()
-				if idle > 250*time.Millisecond {
-					break
-				}
-				time.Sleep(20 * time.Millisecond)
+				defer mu.Unlock()
+				return time.Since(lastEvent)
 			}
 			if spec.Session.Sampler {
 				close(stopSampler)
 				samplerWG.Wait()
 				stopSampler = make(chan struct{})
-				eps, _ := sc.RootBoltSnapshotEpochs()
-				sort.Slice(eps, func(i, j int) bool { return eps[i] < eps[j] })
-				note(sw.Note("bolt_epochs", eps...))
-				note(sw.Note("quiescent", zapIDs(storeDir)...))
-			} else {
-				eps, _ := sc.RootBoltSnapshotEpochs()
-				sort.Slice(eps, func(i, j int) bool { return eps[i] < eps[j] })
-				note(sw.Note("bolt_epochs", eps...))
+			}
+			var eps, ids []uint64
+			settled := false
+			for try := 0; try < 60 && !settled; try++ {
+				for i := 0; i < 400 && idleFor() < 300*time.Millisecond; i++ {
+					time.Sleep(20 * time.Millisecond)
+				}
+				eps, _ = sc.RootBoltSnapshotEpochs()
+				ids = zapIDs(storeDir)
+				time.Sleep(200 * time.Millisecond)
+				settled = idleFor() >= 500*time.Millisecond
+			}
+			sort.Slice(eps, func(i, j int) bool { return eps[i] < eps[j] })
+			note(sw.Note("bolt_epochs", eps...))
+			if spec.Session.Sampler && settled {
+				note(sw.Note("quiescent", ids...))
 			}
 		}
 	}
